@@ -308,6 +308,112 @@ func runC16(r *mc.Run) {
 			}
 		}
 	}
+	// (i') option shapes: validation must leave the caller's options value as it found it — the byte strings (page
+	// protection) and the lists that hold them (comparison with a deep copy), for lists with empty / nil entries too
+	{
+		type voShape struct {
+			name string
+			mk   func() *validate.Options
+		}
+		regs := func(i int) []byte { return append(make([]byte, 0, 64), raw0[48+328+48*i:48+376+48*i]...) }
+		voShapes := []voShape{
+			{"rtmrs-with-empty-entries", func() *validate.Options {
+				o := &validate.Options{}
+				o.TdQuoteBodyOptions.Rtmrs = [][]byte{regs(0), {}, nil, regs(3)}
+				return o
+			}},
+			{"rtmrs-all-empty", func() *validate.Options {
+				o := &validate.Options{}
+				o.TdQuoteBodyOptions.Rtmrs = [][]byte{{}, {}, {}, {}}
+				return o
+			}},
+			{"rtmrs-list-with-spare-capacity", func() *validate.Options {
+				o := &validate.Options{}
+				o.TdQuoteBodyOptions.Rtmrs = append(make([][]byte, 0, 9), regs(0), nil, regs(2), nil)
+				return o
+			}},
+			{"anymrtd-with-empty-and-spare", func() *validate.Options {
+				o := &validate.Options{}
+				o.TdQuoteBodyOptions.AnyMrTd = append(make([][]byte, 0, 5), []byte{}, append(make([]byte, 0, 64), raw0[48+136:48+184]...), nil)
+				return o
+			}},
+			{"everything-empty-non-nil", func() *validate.Options {
+				o := &validate.Options{}
+				for _, f := range optFields {
+					f.set(o, make([]byte, 0, 8))
+				}
+				o.TdQuoteBodyOptions.MinimumTeeTcbSvn = make([]byte, 0, 16)
+				o.TdQuoteBodyOptions.Rtmrs, o.TdQuoteBodyOptions.AnyMrTd = make([][]byte, 0, 4), make([][]byte, 0, 4)
+				return o
+			}},
+		}
+		copyOpts := func(o *validate.Options) *validate.Options {
+			cb := func(b []byte) []byte {
+				if b == nil {
+					return nil
+				}
+				return append([]byte{}, b...)
+			}
+			cl := func(l [][]byte) [][]byte {
+				if l == nil {
+					return nil
+				}
+				out := make([][]byte, len(l))
+				for i := range l {
+					out[i] = cb(l[i])
+				}
+				return out
+			}
+			c := *o
+			c.HeaderOptions.QeVendorID = cb(o.HeaderOptions.QeVendorID)
+			t, s := &c.TdQuoteBodyOptions, &o.TdQuoteBodyOptions
+			t.MinimumTeeTcbSvn, t.MrSeam, t.TdAttributes, t.Xfam, t.MrTd = cb(s.MinimumTeeTcbSvn), cb(s.MrSeam), cb(s.TdAttributes), cb(s.Xfam), cb(s.MrTd)
+			t.MrConfigID, t.MrOwner, t.MrOwnerConfig, t.ReportData = cb(s.MrConfigID), cb(s.MrOwner), cb(s.MrOwnerConfig), cb(s.ReportData)
+			t.Rtmrs, t.AnyMrTd = cl(s.Rtmrs), cl(s.AnyMrTd)
+			return &c
+		}
+		for _, vs := range voShapes {
+			for _, opName := range []string{"validate.TdxQuote", "validate.RawTdxQuote"} {
+				id := "write/options=" + vs.name + "/" + opName
+				if !r.Want(id) {
+					continue
+				}
+				q, _ := safeToProto(raw0)
+				raw := append([]byte(nil), raw0...)
+				vo := vs.mk()
+				before := copyOpts(vo)
+				ar, aerr := memwatch.New(1 << 21)
+				if aerr != nil {
+					r.HarnessError("C16: cannot map the arena: %v", aerr)
+					return
+				}
+				if _, rerr := ar.Rehome(q, &raw, vo); rerr != nil {
+					r.HarnessError("C16: %v", rerr)
+					ar.Free()
+					return
+				}
+				out := "unchanged"
+				fault, _ := ar.Guard(func() {
+					if opName == "validate.TdxQuote" {
+						validate.TdxQuote(q, vo)
+					} else {
+						validate.RawTdxQuote(raw, vo)
+					}
+				})
+				switch {
+				case fault != nil:
+					site := faultSite(fault.Stack)
+					r.Violate("write:"+opName+":"+site, id, opName+" writes to memory reachable from the quote / raw input / options: store faulted in "+site, map[string]any{"stack": trimStack(fault.Stack)})
+					out = "WRITE@" + site
+				case !reflect.DeepEqual(copyOpts(vo), before):
+					r.Violate("write:options-value:"+opName, id, fmt.Sprintf("%s changed the caller's options value (option shape %s): %+v became %+v", opName, vs.name, before.TdQuoteBodyOptions, vo.TdQuoteBodyOptions), nil)
+					out = "options-changed"
+				}
+				ar.Free()
+				r.Eval(id, true, "write:"+out)
+			}
+		}
+	}
 	// aliasing: a parsed quote shares no memory with its input
 	{
 		id := "alias/parsed-vs-input"
